@@ -864,6 +864,7 @@ def Array_iadd_prefactor_other(self, prefactor, other):
     Moreover, if `self` and `other` have the same labels in different order,
     other gets **transposed** before the action.
     """
+    other = other._transpose_same_labels(self._labels)  # first: changes the legs and un-sorts _qdata
     if not optimize(OptimizationFlag.skip_arg_checks):
         if self.rank != other.rank:
             raise ValueError("different rank!")
@@ -875,7 +876,6 @@ def Array_iadd_prefactor_other(self, prefactor, other):
         return self # nothing to do
     self.isort_qdata()
     other.isort_qdata()
-    other = other._transpose_same_labels(self._labels)
     # convert to equal types
     calc_dtype = np.result_type(self.dtype, other.dtype, prefactor)
     cdef int calc_dtype_num = calc_dtype.num  # can be compared to np.NPY_FLOAT64/NPY_COMPLEX128
